@@ -305,14 +305,16 @@ def check(model, rep, tier):
         # dispatch tables by representative evaluation (sa/domains/consts.py): which writer / reader is reached for which value of `<path>.suffix`
         from ..domains.consts import dispatch_table
         cands = sorted({c.value for fn_ in (tf, ff) for c in ast.walk(fn_.node) if isinstance(c, ast.Constant) and isinstance(c.value, str) and c.value.startswith(".")}
-                       | {".pq", ".parquet", ".csv", ".txt", ""})
+                       | {".pq", ".parquet", ".csv", ".txt", "", ".PQ", ".PARQUET", ".Parquet", ".CSV"})
         tw = dispatch_table(model, tf, "suffix", cands, {"to_parquet", "to_csv"})
         tr = dispatch_table(model, ff, "suffix", cands, {"from_parquet", "from_csv"})
         s1 = sorted(v for v, c in tw.items() if c == ["to_parquet"])
         s2 = sorted(v for v, c in tr.items() if c == ["from_parquet"])
         rest_ok = all(c == ["to_csv"] for v, c in tw.items() if v not in s1) and all(c == ["from_csv"] for v, c in tr.items() if v not in s2)
         rep.instance("S10", tf.loc())
-        ok = s1 == s2 == [".parquet", ".pq"] and rest_ok
+        # upper/mixed-case spellings are candidates too: whichever way they go, writer and reader must agree on them (seeded change C13-16: a case-insensitive reader
+        # next to a case-sensitive writer reads "x.PARQUET", written as CSV, with the Parquet reader)
+        ok = s1 == s2 and [v for v in s1 if v == v.lower()] == [".parquet", ".pq"] and rest_ok
         rep.ob("S10", tf.anchor, "to_file and from_file choose Parquet for the same suffix set and CSV otherwise", ok, f"writer {tw}, reader {tr}"[:300], node=tf.node,
                fn=tf, clause="layout", stmt="suffix dispatch")
         MT_, MF_ = Matcher(tf), Matcher(ff)
